@@ -29,26 +29,26 @@ type Violation struct {
 
 // Result is what a harness process writes to $VERIF_OUT.
 type Result struct {
-	Property    string         `json:"property"`
-	Tier        string         `json:"tier"`
-	Shard       int            `json:"shard"`
-	NShards     int            `json:"nshards"`
-	Evaluations int64          `json:"evaluations"`
-	Transitions int64          `json:"transitions"`
-	States      int64          `json:"states"`
-	Nontrivial  int64          `json:"distinct_nontrivial"`
-	Outcomes    map[string]int64 `json:"outcomes"`
-	Exhaustive  bool           `json:"exhaustive"`
-	Caps        []string       `json:"caps,omitempty"`
-	Bounds      map[string]any `json:"bounds,omitempty"`
-	Samples     []any          `json:"samples"`
-	Violations  []*Violation   `json:"violations"`
-	Assumptions []string       `json:"assumptions,omitempty"`
-	Rule        string         `json:"rule,omitempty"`
-	Notes       []string       `json:"notes,omitempty"`
-	Replayed    *bool          `json:"replayed_violation,omitempty"` // replay mode: did the violation reproduce
-	MachineryError string      `json:"machinery_error,omitempty"`
-	WallS       float64        `json:"wall_s"`
+	Property       string           `json:"property"`
+	Tier           string           `json:"tier"`
+	Shard          int              `json:"shard"`
+	NShards        int              `json:"nshards"`
+	Evaluations    int64            `json:"evaluations"`
+	Transitions    int64            `json:"transitions"`
+	States         int64            `json:"states"`
+	Nontrivial     int64            `json:"distinct_nontrivial"`
+	Outcomes       map[string]int64 `json:"outcomes"`
+	Exhaustive     bool             `json:"exhaustive"`
+	Caps           []string         `json:"caps,omitempty"`
+	Bounds         map[string]any   `json:"bounds,omitempty"`
+	Samples        []any            `json:"samples"`
+	Violations     []*Violation     `json:"violations"`
+	Assumptions    []string         `json:"assumptions,omitempty"`
+	Rule           string           `json:"rule,omitempty"`
+	Notes          []string         `json:"notes,omitempty"`
+	Replayed       *bool            `json:"replayed_violation,omitempty"` // replay mode: did the violation reproduce
+	MachineryError string           `json:"machinery_error,omitempty"`
+	WallS          float64          `json:"wall_s"`
 }
 
 // Run is the handle given to a harness body.
@@ -225,7 +225,7 @@ func (r *Run) AddStates(base string, n int64) {
 }
 
 // NonTrivial records a distinct non-trivial case.
-func (r *Run) NonTrivial(h uint64) { r.nontrivial[h] = struct{}{} }
+func (r *Run) NonTrivial(h uint64)           { r.nontrivial[h] = struct{}{} }
 func (r *Run) NonTrivialStr(parts ...string) { r.nontrivial[Hash(parts...)] = struct{}{} }
 
 // Outcome counts an observed outcome class.
